@@ -55,7 +55,8 @@ func bigSeq(j *jobCtx, kind string) {
 		for i := 0; i < n; i++ { // one at a time across the capacity thresholds
 			cs = append(cs, Call{Op: "Add", Vs: []int{(i * 7) % 5}})
 		}
-		cs = append(cs, Call{Op: "Get", I: n - 1}, Call{Op: "IndexOf", V: 4}, Call{Op: "Sort", Cmp: "natx"}, Call{Op: "Clear"},
+		cs = append(cs, Call{Op: "Get", I: n - 1}, Call{Op: "Get", I: n / 2}, Call{Op: "Get", I: 17}, Call{Op: "Prepend0"}, Call{Op: "Get", I: 18},
+			Call{Op: "IndexOf", V: 4}, Call{Op: "Sort", Cmp: "natx"}, Call{Op: "Clear"},
 			Call{Op: "Add", Vs: []int{3, 1}}, Call{Op: "Add", Vs: []int{2}}, Call{Op: "Remove", I: 1}, Call{Op: "Remove", I: 0},
 			Call{Op: "Insert", I: 0, Vs: rangeInts(0, 20)}, Call{Op: "Insert", I: 10, Vs: rangeInts(30, 10)}, Call{Op: "Swap", I: 0, J: 35},
 			Call{Op: "Set", I: 38, V: 5}, Call{Op: "Remove", I: 37}, Call{Op: "Sort", Cmp: "revx"}, Call{Op: "Sort", Cmp: "half"},
@@ -66,6 +67,16 @@ func bigSeq(j *jobCtx, kind string) {
 		cs = append(cs, Call{Op: "Values"}, Call{Op: "Add", Vs: rangeInts(0, 33)}, Call{Op: "Contains", Vs: rangeInts(0, 12)})
 		if kind != "arraylist" {
 			cs = append(cs, Call{Op: "Prepend", Vs: rangeInts(5, 0)}, Call{Op: "Append", Vs: rangeInts(0, 9)})
+		}
+		// "Prepend0" stands for Prepend(9) on the linked lists and Insert(0, 9) on the array list
+		for i := range cs {
+			if cs[i].Op == "Prepend0" {
+				if kind == "arraylist" {
+					cs[i] = Call{Op: "Insert", I: 0, Vs: []int{9}}
+				} else {
+					cs[i] = Call{Op: "Prepend", Vs: []int{9}}
+				}
+			}
 		}
 		runScript(x, cs)
 	}
@@ -122,10 +133,10 @@ func bigSet(j *jobCtx, kind string) {
 		}
 		cs = append(cs, Call{Op: "Contains", Vs: rangeInts(0, 12)}, Call{Op: "Remove", Vs: rangeInts(12, 2)}, // 10 arguments, reverse order
 			Call{Op: "Add", Vs: rangeInts(0, 15)}, Call{Op: "Clear"}, Call{Op: "Add", Vs: rangeInts(n, 0)}) // bulk add of 40
-		for i := 0; i < n-7; i++ { // shrink one at a time to below a quarter ...
-			cs = append(cs, Call{Op: "Remove", Vs: []int{i}})
+		for i := 0; i+2 < n-7; i += 3 { // shrink to below a quarter, three members per call: some call crosses every threshold
+			cs = append(cs, Call{Op: "Remove", Vs: []int{i, i + 1, i + 2}}, Call{Op: "Contains", Vs: []int{i + 3, i + 2}})
 		}
-		cs = append(cs, Call{Op: "Remove", Vs: []int{n - 7, n - 6, n - 5}}, // ... then several at once across the threshold
+		cs = append(cs, Call{Op: "Remove", Vs: []int{n - 7, n - 6, n - 5}},
 			Call{Op: "Values"}, Call{Op: "Add", Vs: []int{1, 2, 1}}, Call{Op: "FromJSON", Vs: rangeInts(25, 0)},
 			Call{Op: "Remove", Vs: []int{24, 3, 100, 101, 7, 102, 103, 5, 104}}, Call{Op: "Contains", Vs: []int{24, 3}}, Call{Op: "Size"})
 		runScript(x, cs)
@@ -206,4 +217,42 @@ func bigMap(j *jobCtx, kind string, r *rand.Rand) {
 			Call{Op: "Remove", I: 3}, Call{Op: "Put", I: 3, V: val(3)}, Call{Op: "Values"}, Call{Op: "Size"})
 		runScript(x, cs)
 	}
+}
+
+// bigStatePath builds one larger state of a universe's container kind (about 40 elements): used by the
+// families that visit states rather than histories (readers, alias, JSON round trips)
+func bigStatePath(x0 Inst) []Call {
+	var big []Call
+	switch t := x0.(type) {
+	case *seqInst:
+		for i := 0; i < 40; i++ {
+			big = append(big, Call{Op: "Add", Vs: []int{(i * 7) % 11}})
+		}
+	case *queInst:
+		put := "Enqueue"
+		if queDisc(t.kind) == "lifo" {
+			put = "Push"
+		}
+		for i := 0; i < 40 && (t.kind != "circularbuffer" || i < t.cap+2); i++ {
+			big = append(big, Call{Op: put, V: i % 7})
+		}
+	case *heapInst:
+		put := "Push"
+		if t.kind == "priorityqueue" {
+			put = "Enqueue"
+		}
+		for i := 0; i < 40; i++ {
+			big = append(big, Call{Op: put, Vs: []int{10*(1+(i*5)%9) + i%10}})
+		}
+	case *setInst:
+		big = append(big, Call{Op: "Add", Vs: rangeInts(40, 0)})
+	case *mapInst:
+		if mapBidi(t.kind) {
+			return nil // the bidi universes are 3 x 3
+		}
+		for i := 0; i < 40; i++ {
+			big = append(big, Call{Op: "Put", I: (i * 13) % 40, V: 100 + i})
+		}
+	}
+	return big
 }
